@@ -1,4 +1,4 @@
-import GoatProofs.Lemmas.C13Group
+import GoatProofs.Lemmas.C13Decode
 /-
 C13 — Ed448 signing and verification are exactly RFC 8032 Ed448.
 -/
@@ -278,5 +278,470 @@ theorem sign_eq_spec (hp : Nat.Prime q) (E : EdwardsGroup) (o : Oracle) (seed ms
   show (Bytes.decodeLE hd % L * (Spec.RFC8032.secretScalar h % L) + Bytes.decodeLE md % L) % L =
     (Bytes.decodeLE md + Bytes.decodeLE hd * Spec.RFC8032.secretScalar h) % L
   rw [Nat.add_comm, Nat.add_mod, Nat.mul_mod, Nat.mod_mod, Nat.mod_mod, Nat.mod_mod, ← Nat.mul_mod, ← Nat.add_mod]
+
+/-! ## verification -/
+
+/-- closed form of the spec verification (reading `reducedK`) under an oracle -/
+def specVerifyVal (o : Oracle) (pk msg sig : Bytes) : Bool :=
+  if sig.length ≠ 114 then false
+  else
+    let k := Bytes.decodeLE (xof o (sigEd448 ++ sig.take 57 ++ pk ++ msg))
+    match Spec.RFC8032.decodePoint (sig.take 57), Spec.RFC8032.decodePoint pk with
+    | some r, some a =>
+      if Bytes.decodeLE (sig.drop 57) ≥ L then false
+      else decide (Spec.Edwards448.smul (Bytes.decodeLE (sig.drop 57)) Spec.Edwards448.B =
+        Spec.Edwards448.add r (Spec.Edwards448.smul (k % L) a))
+    | _, _ => false
+
+theorem spec_verify_run (o : Oracle) (pk msg sig : Bytes) :
+    (Spec.RFC8032.verify pk msg sig []).run o = .ok (specVerifyVal o pk msg sig) := by
+  unfold Spec.RFC8032.verify Spec.RFC8032.verifyWith specVerifyVal
+  by_cases hl : sig.length ≠ 114
+  · simp [hl]
+  · simp only [hl, if_false]
+    rw [PO.run_bind, ← shake_eq, ← sigEd448_eq, run_shake]
+    simp only
+    cases Spec.RFC8032.decodePoint (sig.take 57) <;> cases Spec.RFC8032.decodePoint pk <;>
+      simp only [] <;> try rfl
+    split <;> rfl
+
+/-- the public key: goat's decoder and the RFC decoder agree -/
+theorem pk_cases (hp : Nat.Prime q) (pk : Bytes) :
+    (∃ pA a, Model.Ed448Pt.setBytes (toInts pk) = .ok pA ∧ PRep pA a ∧ OnCurve a ∧
+        Spec.RFC8032.decodePoint pk = some a) ∨
+    (∃ e, Model.Ed448Pt.setBytes (toInts pk) = .err e ∧ Spec.RFC8032.decodePoint pk = none) := by
+  cases h : Model.Ed448Pt.setBytes (toInts pk) with
+  | ok pA =>
+    obtain ⟨a, ha, henc, hrep⟩ := setBytes_sound hp (toInts pk) (toInts_allIn pk) pA h
+    have : pk = Spec.RFC8032.encodePoint a := intsOf_inj henc
+    exact Or.inl ⟨pA, a, rfl, hrep, ha, (decodePoint_iff hp pk a).mpr ⟨ha, this⟩⟩
+  | err e =>
+    refine Or.inr ⟨e, rfl, ?_⟩
+    cases hd : Spec.RFC8032.decodePoint pk with
+    | none => rfl
+    | some a =>
+      obtain ⟨ha, henc⟩ := (decodePoint_iff hp pk a).mp hd
+      obtain ⟨Pt, hok, _⟩ := setBytes_complete hp ha
+      rw [← toInts_eq_intsOf, ← henc, h] at hok; cases hok
+  | panic s =>
+    have := setBytes_total (toInts pk)
+    rw [h] at this; cases this
+
+/-- the scalar half of the signature: `SetCanonicalBytes` succeeds exactly below L -/
+theorem sc_cases (o : Oracle) (sc : Bytes) (hl : sc.length = 57) :
+    (∃ s, (leanOps.setCanonicalBytes sc).run o = .ok s ∧ s.length = 56 ∧
+        Bytes.decodeLE s = Bytes.decodeLE sc ∧ Bytes.decodeLE sc < L) ∨
+    (∃ e, (leanOps.setCanonicalBytes sc).run o = .err e ∧ L ≤ Bytes.decodeLE sc) := by
+  have hx : (toInts sc).length = 57 := by rw [toInts_length, hl]
+  obtain ⟨h1, h2⟩ := C16Sc.setCanonicalBytes_spec (toInts sc) hx (toInts_allIn sc)
+  have hL : C16Sc.L448 = ((L : ℕ) : ℤ) := by decide +kernel
+  have hdec := decodeLE_eq sc
+  cases hs : Model.Sc448.setCanonicalBytes (toInts sc) with
+  | some r =>
+    obtain ⟨e1, _, e3, e4⟩ := h1 r hs
+    have hr : C16Sc.Str56 r := by
+      rw [e1]; exact ⟨by rw [List.length_take]; omega, fun y hy => toInts_allIn sc y (List.mem_of_mem_take hy)⟩
+    refine Or.inl ⟨ofInts r, ?_, by rw [ofInts_length, hr.1], ?_, ?_⟩
+    · show (optPO _ ((Model.Sc448.setCanonicalBytes (toInts sc)).map ofInts)).run o = _
+      rw [hs]; rfl
+    · have := decodeLE_eq (ofInts r)
+      rw [toInts_ofInts r hr.2, ← e4, ← hdec] at this
+      exact_mod_cast this
+    · rw [hL, ← e4, ← hdec] at e3; exact_mod_cast e3
+  | none =>
+    refine Or.inr ⟨"scalar-encoding", ?_, ?_⟩
+    · show (optPO _ ((Model.Sc448.setCanonicalBytes (toInts sc)).map ofInts)).run o = _
+      rw [hs]; rfl
+    · by_contra hlt
+      have hlt' : Bytes.decodeLE sc < L := by omega
+      -- value = low 56 octets + 256^56 · top
+      have e := split57 (toInts sc) hx
+      have hv : Model.Sc448.evalLE (toInts sc) =
+          Model.Sc448.evalLE ((toInts sc).take 56) + 256 ^ 56 * (toInts sc).getD 56 0 := by
+        conv_lhs => rw [e]
+        rw [evalLE_append]
+        have : ((toInts sc).take 56).length = 56 := by rw [List.length_take]; omega
+        rw [this]; simp [Model.Sc448.evalLE]
+      have htop := toInts_allIn sc ((toInts sc).getD 56 0) (by
+        rw [List.getD_eq_getElem?_getD, List.getElem?_eq_getElem (by omega)]; exact List.getElem_mem _)
+      have hlow : 0 ≤ Model.Sc448.evalLE ((toInts sc).take 56) := by
+        rw [evalLE_eq_evalBytes]
+        exact evalBytes_nonneg _ (fun y hy => toInts_allIn sc y (List.mem_of_mem_take hy))
+      have hLlt : (L : ℤ) < 256 ^ 56 := by decide +kernel
+      have hval : Model.Sc448.evalLE (toInts sc) < (L : ℤ) := by rw [← hdec]; exact_mod_cast hlt'
+      have htop0 : (toInts sc).getD 56 0 = 0 := by
+        by_contra hne
+        have : 1 ≤ (toInts sc).getD 56 0 := by omega
+        nlinarith
+      have hlow' : Model.Sc448.evalLE ((toInts sc).take 56) < C16Sc.L448 := by
+        rw [hL]; rw [hv, htop0] at hval; linarith
+      rw [h2 htop0 hlow'] at hs; cases hs
+
+theorem top_nonzero_ge (sc : Bytes) (hl : sc.length = 57) (h : sc.getD 56 0 ≠ 0) : L ≤ Bytes.decodeLE sc := by
+  have hx : (toInts sc).length = 57 := by rw [toInts_length, hl]
+  have hdec := decodeLE_eq sc
+  have e := split57 (toInts sc) hx
+  have hv : Model.Sc448.evalLE (toInts sc) =
+      Model.Sc448.evalLE ((toInts sc).take 56) + 256 ^ 56 * (toInts sc).getD 56 0 := by
+    conv_lhs => rw [e]
+    rw [evalLE_append]
+    have : ((toInts sc).take 56).length = 56 := by rw [List.length_take]; omega
+    rw [this]; simp [Model.Sc448.evalLE]
+  have hlow : 0 ≤ Model.Sc448.evalLE ((toInts sc).take 56) := by
+    rw [evalLE_eq_evalBytes]
+    exact evalBytes_nonneg _ (fun y hy => toInts_allIn sc y (List.mem_of_mem_take hy))
+  have htop : (toInts sc).getD 56 0 = ((sc.getD 56 0).toNat : ℤ) := by
+    unfold toInts
+    rw [List.getD_eq_getElem?_getD, List.getD_eq_getElem?_getD, List.getElem?_map]
+    cases sc[56]? <;> rfl
+  have hne : 1 ≤ ((sc.getD 56 0).toNat : ℤ) := by
+    have : (sc.getD 56 0).toNat ≠ 0 := fun h0 => h (UInt8.toNat_inj.mp (by rw [h0]; rfl))
+    omega
+  have hLlt : (L : ℤ) < 256 ^ 56 := by decide +kernel
+  have : (L : ℤ) ≤ ((Bytes.decodeLE sc : ℕ) : ℤ) := by rw [hdec, hv, htop]; nlinarith
+  exact_mod_cast this
+
+theorem specVerifyVal_false_of_ge (o : Oracle) (pk msg sig : Bytes) (h : L ≤ Bytes.decodeLE (sig.drop 57)) :
+    specVerifyVal o pk msg sig = false := by
+  unfold specVerifyVal
+  by_cases hlen : sig.length ≠ 114
+  · rw [if_pos hlen]
+  · rw [if_neg hlen]
+    simp only
+    cases Spec.RFC8032.decodePoint (sig.take 57) with
+    | none => rfl
+    | some r =>
+      cases Spec.RFC8032.decodePoint pk with
+      | none => rfl
+      | some a => exact if_pos h
+
+theorem specVerifyVal_false_of_pk (o : Oracle) (pk msg sig : Bytes) (h : Spec.RFC8032.decodePoint pk = none) :
+    specVerifyVal o pk msg sig = false := by
+  unfold specVerifyVal
+  by_cases hlen : sig.length ≠ 114
+  · rw [if_pos hlen]
+  · rw [if_neg hlen]
+    simp only [h]
+    cases Spec.RFC8032.decodePoint (sig.take 57) <;> rfl
+
+theorem val_inj {E : EdwardsGroup} {g h : E.G} (e : EdwardsGroup.val g = EdwardsGroup.val h) : g = h :=
+  Subtype.ext e
+
+/-- VERIFICATION: for every 57-octet public key, every message, every signature (any length)
+    and every hash oracle, `Verify` returns exactly what RFC 8032 §5.2.7 prescribes, in the reading
+    [S]B = R + [k mod L]A' (see docs/C13.md) — in particular it never panics, rejects wrong lengths,
+    S ≥ L, non-canonical or off-curve public keys and R, and a failing group equation, and accepts
+    everything else.  Hypotheses: p prime and `EdwardsGroup`. -/
+theorem verify_eq_spec (hp : Nat.Prime q) (E : EdwardsGroup) (o : Oracle) (pk msg sig : Bytes)
+    (hpk : pk.length = 57) :
+    (verify leanOps pk msg sig).run o = (Spec.RFC8032.verify pk msg sig []).run o := by
+  rw [spec_verify_run]
+  unfold verify
+  rw [if_neg (by rw [hpk]; decide)]
+  by_cases hl : sig.length = 114
+  swap
+  · have : specVerifyVal o pk msg sig = false := by unfold specVerifyVal; rw [if_pos hl]
+    rw [this]
+    have hc : (sig.length ≠ Gen.Ed448Pt.SignatureSize || sig.getD 113 0 &&& 0x7F != 0) = true := by
+      have : (sig.length ≠ Gen.Ed448Pt.SignatureSize) := hl
+      simp [this]
+    rw [if_pos hc]; rfl
+  have hscl : (sig.drop 57).length = 57 := by rw [List.length_drop, hl]
+  have htopeq : (sig.drop 57).getD 56 0 = sig.getD 113 0 := by
+    rw [List.getD_eq_getElem?_getD, List.getD_eq_getElem?_getD, List.getElem?_drop]
+  by_cases hm : (sig.getD 113 0 &&& 0x7F != 0) = true
+  · have hne : sig.getD 113 0 ≠ 0 := by
+      intro h0; rw [h0] at hm; revert hm; decide
+    have hge := top_nonzero_ge (sig.drop 57) hscl (by rw [htopeq]; exact hne)
+    rw [specVerifyVal_false_of_ge o pk msg sig hge]
+    have hc : (sig.length ≠ Gen.Ed448Pt.SignatureSize || sig.getD 113 0 &&& 0x7F != 0) = true := by
+      rw [hm]; simp
+    rw [if_pos hc]; rfl
+  have hc : ¬ (sig.length ≠ Gen.Ed448Pt.SignatureSize || sig.getD 113 0 &&& 0x7F != 0) = true := by
+    have h1 : ¬ (sig.length ≠ Gen.Ed448Pt.SignatureSize) := fun h => h hl
+    have hm' : (sig.getD 113 0 &&& 0x7F != 0) = false := by
+      cases hb : (sig.getD 113 0 &&& 0x7F != 0) with
+      | true => exact absurd hb hm
+      | false => rfl
+    rw [hm']; simp [h1]
+  rw [if_neg hc]
+  rw [PO.run_bind, PO.run_attempt]
+  simp only
+  rcases pk_cases hp pk with ⟨pA, a, hok, hrep, ha, hdec⟩ | ⟨e, herr, hdec⟩
+  swap
+  · have : (leanOps.pointSetBytes pk).run o = .err e := by
+      show (PO.ofOutcome _).run o = _; rw [PO.run_ofOutcome, herr]
+    rw [this, specVerifyVal_false_of_pk o pk msg sig hdec]; rfl
+  have hrun : (leanOps.pointSetBytes pk).run o = .ok pA := by
+    show (PO.ofOutcome _).run o = _; rw [PO.run_ofOutcome, hok]
+  rw [hrun]
+  simp only
+  rw [PO.run_bind, run_shake]
+  simp only
+  obtain ⟨k, ek, kl, kv⟩ := uniform_run o (xof o (sigEd448 ++ sig.take 57 ++ pk ++ msg)) (xof_length o _)
+  rw [PO.run_bind, run_orPanic_ok o _ _ k ek]
+  simp only
+  rw [PO.run_bind, PO.run_attempt]
+  simp only
+  rcases sc_cases o (sig.drop 57) hscl with ⟨s, es, sl, sv, slt⟩ | ⟨e, es, sge⟩
+  swap
+  · rw [es, specVerifyVal_false_of_ge o pk msg sig sge]; rfl
+  rw [es]
+  simp only
+  -- the group elements
+  let g : E.G := E.mk' a ha
+  have hneg : GRep E (Model.Ed448Pt.negate pA) (-g) := by
+    show PRep _ (EdwardsGroup.val (-g))
+    have : EdwardsGroup.val (-g) = Spec.Edwards448.neg (EdwardsGroup.val g) := E.neg_val g
+    rw [this]; exact negate_correct hrep
+  have hkv : Bytes.decodeLE k < 2 ^ 447 := by
+    rw [kv]; exact lt_trans (Nat.mod_lt _ (by decide +kernel)) L_lt
+  have hsv : Bytes.decodeLE s < 2 ^ 447 := by rw [sv]; exact lt_trans slt L_lt
+  obtain ⟨R, eR, hR⟩ := doubleScalarMult_correct E hp hneg k s kl sl hkv hsv
+  have hneg_run : (leanOps.negate pA).run o = .ok (Model.Ed448Pt.negate pA) := by
+    show (PO.ofOutcome (Model.Ed448Pt.negateG pA)).run o = _
+    rw [PO.run_ofOutcome]
+    unfold Model.Ed448Pt.negateG Model.Ed448Pt.guard1
+    rw [if_pos (initialized_of_prep hp hrep ha)]
+  rw [PO.run_bind, hneg_run]
+  simp only
+  have hdm_run : (leanOps.doubleScalarBaseMult k (Model.Ed448Pt.negate pA) s).run o = .ok R := by
+    show (PO.ofOutcome _).run o = _; rw [PO.run_ofOutcome, eR]
+  rw [PO.run_bind, hdm_run]
+  simp only
+  set G : E.G := ((Bytes.decodeLE k : ℕ) : ℤ) • (-g) + ((Bytes.decodeLE s : ℕ) : ℤ) • E.B with hG
+  have hbytes : (leanOps.pointBytes R).run o = .ok (Spec.RFC8032.encodePoint (EdwardsGroup.val G)) := by
+    show (PO.ofOutcome ((Model.Ed448Pt.bytesG R).bind fun l => .ok (ofInts l))).run o = _
+    rw [PO.run_ofOutcome]
+    unfold Model.Ed448Pt.bytesG Model.Ed448Pt.guard1
+    rw [if_pos (initialized_of_prep hp hR (EdwardsGroup.on _)), bytes_canonical hp hR (EdwardsGroup.on _)]
+    show Outcome.ok (ofInts (intsOf _)) = _
+    rw [← toInts_eq_intsOf, ofInts_toInts]
+  rw [PO.run_bind, hbytes]
+  simp only
+  show Outcome.ok _ = Outcome.ok _
+  congr 1
+  -- compare the two Booleans
+  unfold specVerifyVal
+  rw [if_neg (fun h => h hl)]
+  simp only [hdec]
+  cases hr : Spec.RFC8032.decodePoint (sig.take 57) with
+  | none =>
+    simp only
+    rw [beq_eq_false_iff_ne]
+    intro heq
+    have := (decodePoint_iff hp (sig.take 57) (EdwardsGroup.val G)).mpr ⟨EdwardsGroup.on G, heq⟩
+    rw [hr] at this; cases this
+  | some r =>
+    simp only
+    obtain ⟨hron, hrenc⟩ := (decodePoint_iff hp (sig.take 57) r).mp hr
+    rw [if_neg (by omega)]
+    let rg : E.G := E.mk' r hron
+    have e1 : Spec.Edwards448.smul (Bytes.decodeLE (sig.drop 57)) Spec.Edwards448.B =
+        EdwardsGroup.val (Bytes.decodeLE (sig.drop 57) • E.B) := smul_B_eq E _
+    have e2 : Spec.Edwards448.smul (Bytes.decodeLE (xof o (sigEd448 ++ sig.take 57 ++ pk ++ msg)) % L) a =
+        EdwardsGroup.val ((Bytes.decodeLE (xof o (sigEd448 ++ sig.take 57 ++ pk ++ msg)) % L) • g) := smul_eq E g _
+    have e3 : Spec.Edwards448.add r (EdwardsGroup.val ((Bytes.decodeLE (xof o (sigEd448 ++ sig.take 57 ++ pk ++ msg)) % L) • g)) =
+        EdwardsGroup.val (rg + (Bytes.decodeLE (xof o (sigEd448 ++ sig.take 57 ++ pk ++ msg)) % L) • g) := (val_add E rg _).symm
+    rw [e1, e2, e3]
+    rw [Bool.eq_iff_iff, beq_iff_eq, decide_eq_true_eq]
+    have hGeq : G = (-((Bytes.decodeLE (xof o (sigEd448 ++ sig.take 57 ++ pk ++ msg)) % L) • g)) +
+        Bytes.decodeLE (sig.drop 57) • E.B := by
+      rw [hG, kv, sv, natCast_zsmul, natCast_zsmul, smul_neg]
+    constructor
+    · intro heq
+      have hrG : rg = G := by
+        apply val_inj
+        apply encode_inj hp hron (EdwardsGroup.on G)
+        show intsOf (Spec.RFC8032.encodePoint r) = _
+        rw [← hrenc, heq]
+      rw [hrG, hGeq]; abel_nf
+    · intro heq
+      have h2 := val_inj heq
+      have hrG : rg = G := by
+        rw [hGeq, h2]; abel
+      rw [hrenc]
+      show Spec.RFC8032.encodePoint (EdwardsGroup.val rg) = _
+      rw [hrG]
+
+/-- `Verify` never panics on a 57-octet public key (any message, any signature, any oracle) -/
+theorem verify_total (hp : Nat.Prime q) (E : EdwardsGroup) (o : Oracle) (pk msg sig : Bytes)
+    (hpk : pk.length = 57) : ∃ b, (verify leanOps pk msg sig).run o = .ok b := by
+  rw [verify_eq_spec hp E o pk msg sig hpk, spec_verify_run]; exact ⟨_, rfl⟩
+
+/-- `Verify` accepts exactly when the RFC verification (reading reducedK) accepts -/
+theorem verify_iff_spec (hp : Nat.Prime q) (E : EdwardsGroup) (o : Oracle) (pk msg sig : Bytes)
+    (hpk : pk.length = 57) :
+    (verify leanOps pk msg sig).run o = .ok true ↔ (Spec.RFC8032.verify pk msg sig []).run o = .ok true := by
+  rw [verify_eq_spec hp E o pk msg sig hpk]
+
+/-- what acceptance means, spelled out: length 114, S < L, the public key and R are canonical
+    encodings of curve points, and the group equation [S]B = R + [k mod L]A' holds -/
+theorem verify_accepts_iff (hp : Nat.Prime q) (E : EdwardsGroup) (o : Oracle) (pk msg sig : Bytes)
+    (hpk : pk.length = 57) :
+    (verify leanOps pk msg sig).run o = .ok true ↔
+      sig.length = 114 ∧ Bytes.decodeLE (sig.drop 57) < L ∧
+      ∃ r a, OnCurve r ∧ sig.take 57 = Spec.RFC8032.encodePoint r ∧ OnCurve a ∧ pk = Spec.RFC8032.encodePoint a ∧
+        Spec.Edwards448.smul (Bytes.decodeLE (sig.drop 57)) Spec.Edwards448.B =
+          Spec.Edwards448.add r (Spec.Edwards448.smul
+            (Bytes.decodeLE (xof o (sigEd448 ++ sig.take 57 ++ pk ++ msg)) % L) a) := by
+  rw [verify_eq_spec hp E o pk msg sig hpk, spec_verify_run]
+  unfold specVerifyVal
+  constructor
+  · intro h
+    have h := Outcome.ok.inj h
+    by_cases hl : sig.length ≠ 114
+    · rw [if_pos hl] at h; cases h
+    rw [if_neg hl] at h
+    simp only at h
+    cases hr : Spec.RFC8032.decodePoint (sig.take 57) with
+    | none => rw [hr] at h; cases h
+    | some r =>
+      cases ha : Spec.RFC8032.decodePoint pk with
+      | none => rw [hr, ha] at h; cases h
+      | some a =>
+        rw [hr, ha] at h
+        simp only at h
+        by_cases hS : Bytes.decodeLE (sig.drop 57) ≥ L
+        · rw [if_pos hS] at h; cases h
+        rw [if_neg hS] at h
+        obtain ⟨r1, r2⟩ := (decodePoint_iff hp _ r).mp hr
+        obtain ⟨a1, a2⟩ := (decodePoint_iff hp _ a).mp ha
+        exact ⟨by omega, by omega, r, a, r1, r2, a1, a2, of_decide_eq_true h⟩
+  · rintro ⟨hl, hS, r, a, r1, r2, a1, a2, heq⟩
+    rw [if_neg (fun h => h hl)]
+    simp only
+    rw [(decodePoint_iff hp _ r).mpr ⟨r1, r2⟩, (decodePoint_iff hp _ a).mpr ⟨a1, a2⟩]
+    simp only
+    rw [if_neg (by omega)]
+    congr 1
+    exact decide_eq_true heq
+
+/-- STRICTNESS: an accepted signature has a canonical public key AND a canonical R -/
+theorem verify_strict (hp : Nat.Prime q) (E : EdwardsGroup) (o : Oracle) (pk msg sig : Bytes)
+    (hpk : pk.length = 57) (h : (verify leanOps pk msg sig).run o = .ok true) :
+    (∃ a, OnCurve a ∧ pk = Spec.RFC8032.encodePoint a) ∧
+    (∃ r, OnCurve r ∧ sig.take 57 = Spec.RFC8032.encodePoint r) ∧
+    sig.length = 114 ∧ Bytes.decodeLE (sig.drop 57) < L := by
+  obtain ⟨hl, hS, r, a, r1, r2, a1, a2, _⟩ := (verify_accepts_iff hp E o pk msg sig hpk).mp h
+  exact ⟨⟨a, a1, a2⟩, ⟨r, r1, r2⟩, hl, hS⟩
+
+/-- COMPLETENESS: verification accepts every signature produced by `Sign` with the key pair of a
+    seed (every seed, message, oracle).  Hypotheses: p prime, `EdwardsGroup`, L·B = 0. -/
+theorem verify_sign (hp : Nat.Prime q) (E : EdwardsGroup) (hLB : L • E.B = 0) (o : Oracle) (seed msg pub sg : Bytes)
+    (hs : seed.length = 57) (hpub : (Spec.RFC8032.publicKey seed).run o = .ok pub)
+    (hsg : (sign leanOps (seed ++ pub) msg).run o = .ok sg) :
+    (verify leanOps pub msg sg).run o = .ok true := by
+  have hpub' : pub = Spec.RFC8032.encodePoint (Spec.Edwards448.smul (Spec.RFC8032.secretScalar (xof o seed)) Spec.Edwards448.B) := by
+    unfold Spec.RFC8032.publicKey at hpub
+    rw [PO.run_bind, ← shake_eq, run_shake] at hpub
+    exact (Outcome.ok.inj hpub).symm
+  have hpl : pub.length = 57 := by rw [hpub']; exact encodePoint_length _
+  rw [sign_eq_spec hp E o seed msg pub hs hpub] at hsg
+  -- the spec signature, explicitly
+  set h := xof o seed with hh
+  set s := Spec.RFC8032.secretScalar h with hsdef
+  set r := Bytes.decodeLE (xof o (sigEd448 ++ h.drop 57 ++ msg)) with hr
+  set rEnc := Spec.RFC8032.encodePoint (Spec.Edwards448.smul (r % L) Spec.Edwards448.B) with hrEnc
+  set k := Bytes.decodeLE (xof o (sigEd448 ++ rEnc ++ pub ++ msg)) with hk
+  have hsg' : sg = rEnc ++ Spec.RFC8032.encodeScalar ((r + k * s) % L) := by
+    have espec : (Spec.RFC8032.sign seed msg []).run o = .ok (rEnc ++ Spec.RFC8032.encodeScalar ((r + k * s) % L)) := by
+      unfold Spec.RFC8032.sign
+      rw [PO.run_bind, ← shake_eq, run_shake]
+      simp only
+      rw [PO.run_bind, ← shake_eq, ← sigEd448_eq, run_shake]
+      simp only
+      rw [PO.run_bind, ← shake_eq, run_shake, ← hpub']
+      rfl
+    rw [espec] at hsg; exact (Outcome.ok.inj hsg).symm
+  have hrl : rEnc.length = 57 := encodePoint_length _
+  have htake : sg.take 57 = rEnc := by rw [hsg', List.take_left' hrl]
+  have hdrop : sg.drop 57 = Spec.RFC8032.encodeScalar ((r + k * s) % L) := by rw [hsg', List.drop_left' hrl]
+  have hSlt : (r + k * s) % L < L := Nat.mod_lt _ (by decide +kernel)
+  have hSdec : Bytes.decodeLE (sg.drop 57) = (r + k * s) % L := by
+    rw [hdrop]; unfold Spec.RFC8032.encodeScalar
+    rw [decodeLE_encodeLE]
+    apply Nat.mod_eq_of_lt
+    have : L < 256 ^ 57 := by decide +kernel
+    omega
+  rw [verify_accepts_iff hp E o pub msg sg hpl]
+  refine ⟨by rw [hsg', List.length_append, hrl]; unfold Spec.RFC8032.encodeScalar; rw [← toInts_length, toInts_eq_intsOf, (intsOf_encodeLE 57 _).1],
+    by rw [hSdec]; exact hSlt, ?_⟩
+  refine ⟨EdwardsGroup.val ((r % L) • E.B), EdwardsGroup.val (s • E.B), EdwardsGroup.on _, ?_, EdwardsGroup.on _, ?_, ?_⟩
+  · rw [htake, hrEnc, smul_B_eq E]
+  · rw [hpub', smul_B_eq E]
+  · rw [hSdec, htake, ← hk, smul_B_eq E, smul_eq E, ← val_add]
+    congr 1
+    -- group algebra with L • B = 0
+    have e1 : ((r + k * s) % L) • E.B = (r + k * s) • E.B := smul_mod E E.B L hLB _
+    have e2 : (r % L) • E.B = r • E.B := smul_mod E E.B L hLB _
+    have hLs : L • (s • E.B) = 0 := by rw [smul_comm, hLB, smul_zero]
+    have e3 : (k % L) • (s • E.B) = k • (s • E.B) := smul_mod E (s • E.B) L hLs _
+    rw [e1, e2, e3, add_smul, mul_smul]
+
+/-! ## the same, with the group hypothesis reduced to associativity
+
+`C16Pt.EdwardsGroup.ofAssoc` builds the group from `EdwardsAssoc` (closure, commutativity, neutral
+element and inverses of the textbook law are proved), so the remaining unproved mathematical input
+of C13 is: p is prime, the Edwards addition law is associative on curve points, and [L]B = 0. -/
+
+theorem sign_eq_spec_of_assoc (hp : Nat.Prime q) (hassoc : EdwardsAssoc) (o : Oracle) (seed msg pub : Bytes)
+    (hs : seed.length = 57) (hpub : (Spec.RFC8032.publicKey seed).run o = .ok pub) :
+    (sign leanOps (seed ++ pub) msg).run o = (Spec.RFC8032.sign seed msg []).run o :=
+  sign_eq_spec hp (EdwardsGroup.ofAssoc hp hassoc) o seed msg pub hs hpub
+
+theorem verify_eq_spec_of_assoc (hp : Nat.Prime q) (hassoc : EdwardsAssoc) (o : Oracle) (pk msg sig : Bytes)
+    (hpk : pk.length = 57) :
+    (verify leanOps pk msg sig).run o = (Spec.RFC8032.verify pk msg sig []).run o :=
+  verify_eq_spec hp (EdwardsGroup.ofAssoc hp hassoc) o pk msg sig hpk
+
+/-- [L]B = 0 in the group, stated on the executable spec: `smul L B = (0, 1)` -/
+theorem order_B_of_smul (E : EdwardsGroup) (h : Spec.Edwards448.smul L Spec.Edwards448.B = Spec.Edwards448.zero) :
+    L • E.B = 0 := by
+  apply val_inj
+  rw [← smul_B_eq E, h]; exact (val_zero E).symm
+
+theorem keygen_eq_spec_of_assoc (hp : Nat.Prime q) (hassoc : EdwardsAssoc)
+    (hLB : Spec.Edwards448.smul L Spec.Edwards448.B = Spec.Edwards448.zero) (o : Oracle) (seed : Bytes)
+    (hs : seed.length = 57) :
+    ∃ pub, (Spec.RFC8032.publicKey seed).run o = .ok pub ∧
+      (newKeyFromSeed leanOps seed).run o = .ok (seed ++ pub) :=
+  keygen_eq_spec hp (EdwardsGroup.ofAssoc hp hassoc) (order_B_of_smul _ hLB) o seed hs
+
+theorem verify_sign_of_assoc (hp : Nat.Prime q) (hassoc : EdwardsAssoc)
+    (hLB : Spec.Edwards448.smul L Spec.Edwards448.B = Spec.Edwards448.zero) (o : Oracle) (seed msg pub sg : Bytes)
+    (hs : seed.length = 57) (hpub : (Spec.RFC8032.publicKey seed).run o = .ok pub)
+    (hsg : (sign leanOps (seed ++ pub) msg).run o = .ok sg) :
+    (verify leanOps pub msg sg).run o = .ok true :=
+  verify_sign hp (EdwardsGroup.ofAssoc hp hassoc) (order_B_of_smul _ hLB) o seed msg pub sg hs hpub hsg
+
+/-! ## non-vacuity -/
+
+-- the base point is a curve point, its encoding is the `generator` literal of goat and decodes back
+example : OnCurve Spec.Edwards448.B ∧ Gen.Ed448Pt.generatorBytes = intsOf (Spec.RFC8032.encodePoint Spec.Edwards448.B) :=
+  ⟨B_onCurve, generatorBytes_eq⟩
+example (hp : Nat.Prime q) : Spec.RFC8032.decodePoint (Spec.RFC8032.encodePoint Spec.Edwards448.B) = some Spec.Edwards448.B :=
+  (decodePoint_iff hp _ _).mpr ⟨B_onCurve, rfl⟩
+-- a non-canonical public key (y = p + 1, the encoding goat accepted before SetBytes became strict) is not
+-- the encoding of any curve point: `verify_strict_pk` rejects it
+example (hp : Nat.Prime q) : Spec.RFC8032.decodePoint (Bytes.encodeLE 57 (2 ^ 448 - 2 ^ 224)) = none := by
+  cases h : Spec.RFC8032.decodePoint (Bytes.encodeLE 57 (2 ^ 448 - 2 ^ 224)) with
+  | none => rfl
+  | some a =>
+    exfalso
+    obtain ⟨ha, henc⟩ := (decodePoint_iff hp _ a).mp h
+    have h1 : Bytes.decodeLE (Spec.RFC8032.encodePoint a) = 2 ^ 448 - 2 ^ 224 := by
+      rw [← henc, decodeLE_encodeLE]; decide +kernel
+    unfold Spec.RFC8032.encodePoint at h1
+    rw [decodeLE_encodeLE] at h1
+    obtain ⟨_, ⟨y0, y1⟩, _⟩ := ha
+    have hpl := p_lt
+    have : p = 2 ^ 448 - 2 ^ 224 - 1 := rfl
+    have h01 : a.x % 2 = 0 ∨ a.x % 2 = 1 := by omega
+    rcases h01 with h | h <;> rw [h] at h1 <;> simp at h1 <;> omega
+-- hypotheses of the signing theorems are satisfiable for every oracle: any 57-octet seed has a public key
+example (o : Oracle) : ∃ pub, (Spec.RFC8032.publicKey (List.replicate 57 0)).run o = .ok pub := by
+  unfold Spec.RFC8032.publicKey
+  rw [PO.run_bind, ← shake_eq, run_shake]; exact ⟨_, rfl⟩
 
 end C13
